@@ -1010,6 +1010,12 @@ class OdeSystem(object):
                 new_dt, (dTime, dState) = self.integrator(self.equ_rhs, self.__t[self.counter], self.__y[self.counter],
                                                            self.constants, timestep=dt)
 
+                if self.__t[self.counter] + dTime == self.__t[self.counter]:
+                    # the step is too short to advance the time: it would be recorded again and again without end
+                    raise etypes.FailedToMeetTolerances(
+                        "Step size underflow: a step of {} from {} does not advance the time ".format(dTime, self.__t[self.counter]) +
+                        "(rtol={}, atol={})".format(self.rtol, self.atol))
+
                 if self.counter + 1 >= len(self.__y):
                     total_steps = self.__alloc_space_steps(tf - dTime) + 1
                     self.__allocate_soln_space(total_steps)
